@@ -408,6 +408,8 @@ def rule_time_reversed(chk, prog):
 
 
 def run(chk, prog, tier):
+  from rules import c01 as _c01
+  _c01.rule_shared_state(chk, prog, rule='C14.9-shared-arrays-never-updated-in-place')
   rule_trajectory(chk, prog)
   rule_repeated(chk, prog)
   rule_closure_binding(chk, prog)
